@@ -237,7 +237,8 @@ TNode ==
 TVptr ==
     /\ IsEvent("vptr") /\ KeepLay
     /\ LET st == NodeClass(Ev.p, Ev.k) IN
-       \/ Ev.res = "ok"      /\ MakeVptr(Ev.p, Ev.h, st, Ev.dyn, Ev.oid, Ev.ind, Ev.route)
+       \/ Ev.res = "ok"      /\ \/ MakeVptr(Ev.p, Ev.h, st, Ev.dyn, Ev.oid, Ev.ind, Ev.route)
+                                \/ MakeVptrEarly(Ev.p, Ev.h, st, Ev.dyn, Ev.oid, Ev.ind, Ev.route)
        \/ Ev.res = "unknown" /\ Ev.chk /\ MakeVptrUnknown(Ev.p, Ev.dyn) /\ Ev.c = Ev.dyn
        \/ Ev.res = "mtable"  /\ Ev.chk /\ MakeVptrNotFinal(Ev.p, st, Ev.dyn, Ev.route) /\ Ev.c = Ev.dyn
 TVDerive ==
